@@ -55,6 +55,10 @@ func init() {
 		{"C13", "bytes", props.C13bytes},
 		{"C07", "adder", props.C07adder},
 		{"C05", "adder", props.C07adder},
+		{"C08", "reslice", props.ResliceGrowth},
+		{"C17", "reslice", props.ResliceGrowth},
+		{"C11", "narrowsend", props.NarrowSends},
+		{"C05", "narrowsend", props.NarrowSends},
 		{"C11", "fillbound", props.FillWithinBuffer},
 		{"C19", "fillbound", props.FillWithinBuffer},
 		{"C15", "swapped", props.SwappedArgs("ot", "circuit", "vole", "bmr", "gmw", "p2p", "sha2pc", "compiler", "compiler/ssa", "compiler/ast", "compiler/circuits")},
